@@ -23,6 +23,7 @@
 #include "Linear_Expression_defs.hh"
 #include "Variable_defs.hh"
 #include "Poly_Con_Relation_defs.hh"
+#include "Poly_Gen_Relation_defs.hh"
 #include "Init_defs.hh"
 #undef private
 #undef protected
@@ -207,6 +208,28 @@ static std::string run_line(const std::string& line) {
     if (op == "image") x.affine_image(Variable(var), lin(a, b), d);
     else x.affine_preimage(Variable(var), lin(a, b), d);
     return "ok";
+  }
+  if (op == "freq") {
+    mpz_class b; zvec a; read_z(in, b); read_vec(in, n, a);
+    Coefficient fn, fd, vn, vd;
+    bool ok = x.frequency(lin(a, b), fn, fd, vn, vd);
+    if (ok) r << "freq 1 " << fn << " " << fd << " " << vn << " " << vd; else r << "freq 0";
+    return r.str();
+  }
+  if (op == "gimage" || op == "gpreimage") {
+    unsigned var; std::string rel; mpz_class b, d, m; zvec a;
+    in >> var >> rel; read_z(in, b); read_z(in, d); read_z(in, m); read_vec(in, n, a);
+    Relation_Symbol rs = rel == "eq" ? EQUAL : rel == "ge" ? GREATER_OR_EQUAL : rel == "le" ? LESS_OR_EQUAL
+                        : rel == "gt" ? GREATER_THAN : LESS_THAN;
+    if (op == "gimage") x.generalized_affine_image(Variable(var), rs, lin(a, b), d, m);
+    else x.generalized_affine_preimage(Variable(var), rs, lin(a, b), d, m);
+    return "ok";
+  }
+  if (op == "relgen") {
+    Grid_Generator g = read_gen(in, n);
+    Poly_Gen_Relation rel = x.relation_with(g);
+    r << "bool " << rel.implies(Poly_Gen_Relation::subsumes());
+    return r.str();
   }
   if (op == "unconstrain") { unsigned var; in >> var; x.unconstrain(Variable(var)); return "ok"; }
   if (op == "embed") { unsigned m; in >> m; x.add_space_dimensions_and_embed(m); return "ok"; }
